@@ -42,9 +42,20 @@ def contracts():
         d = SDict(I, R, name='Pk')
         return d
 
+    def pk_loop_inv(s, it):
+        """only used when the dict is filled by an explicit loop over Nk.keys() instead of the comprehension"""
+        Nk, Pk = s.Nk, s.Pk
+        N = z3.ToReal(s.G.N)
+        k = fresh('k', I)
+        body = And(Pk.dom[k] == And(Nk.dom[k], it.done(k)), Implies(Pk.dom[k], Pk.val[k] * N == z3.ToReal(Nk.val[k])))
+        if so.Mode.finite:
+            return And(*[z3.substitute(body, (k, IntVal(i))) for i in range(so.Mode.lmax + 1)])
+        return z3.ForAll([k], body)
+
     cs.append(Contract(F, 'get_Pk',
         cases=[Case('graph', dict(G=T.graph()))],
         requires=lambda s: s.G.N >= 1,
+        locals_={'Pk': T.dict_of('I', 'R')}, loops={0: pk_loop_inv},
         make_ret=pk_ret,
         ensures=pk_post))
 
